@@ -212,6 +212,18 @@ def f_shape_core() -> List[Case]:
         m = Message("M", [Field(TRef(lib_e, f"{q}.Color"), "c", 1), Field(TRef(lib_m, f"{q}.Pt"), "p", 2), Field(TRef(lib_a, f"{q}.Ts"), "t", 3), Field(TArray(TRef(lib_m, f"{q}.Pt"), 2), "ps", 4), Field(U(3), "z", 5)])
         add(f"imp_{q}", [m], ("import",), imports=[Import(lib, as_name)])
 
+    # declarations nested three deep, multi-word style-guide names (the order of the enclosing names matters from here on)
+    z_mood = Enum("Mood", 2, [("MOOD_OK", 0), ("MOOD_SAD", 1), ("MOOD_WILD", 3)])
+    z_tail = Message("Tail", [Field(U(3), "length", 1), Field(B, "curly", 2)])
+    z_monkey = Message("Monkey", [Field(TRef(z_tail), "tail", 1), Field(TRef(z_mood), "mood", 2), Field(I(5), "bananas", 3)], nested=[z_mood, z_tail])
+    z_zoo = Message("ZooKeeper", [Field(TRef(z_monkey), "monkey", 1), Field(TRef(z_tail, "Monkey.Tail"), "spare_tail", 2), Field(TArray(TRef(z_tail, "Monkey.Tail"), 2), "more_tails", 3), Field(U(2), "gate", 4)], nested=[z_monkey])
+    add("nested_decl3", [z_zoo], ("nest", "nested_decl"))
+
+    # very long (valid) field and message names: nothing in the runtimes may depend on the length of a name
+    long_inner = Message("TelemetryFrameWithAVeryLongDescriptiveName", [Field(U(7), "a_rather_long_field_name_of_forty_two_chars_", 1), Field(I(9), "x", 2)])
+    add("long_names", [long_inner, Message("M", [Field(U(3), "brief", 1), Field(TRef(long_inner), "the_quick_brown_fox_jumps_over_the_lazy_dog_again_and_again", 2),
+                                                 Field(TArray(U(5), 2), "an_array_whose_name_is_longer_than_thirty_two", 3), Field(B, "t", 4)])], ("names",))
+
     # types nested in a message of the imported file, used from the importing file (with and without `as`)
     n_kind = _e("Kind", 2, [0, 1, 3])
     n_inner = Message("Inner", [Field(U(3), "v", 1), Field(I(4), "w", 2)])
@@ -222,6 +234,13 @@ def f_shape_core() -> List[Case]:
         m = Message("M", [Field(TRef(n_inner, f"{q}.Outer.Inner"), "i", 1), Field(TRef(n_kind, f"{q}.Outer.Kind"), "k", 2), Field(TRef(n_outer, f"{q}.Outer"), "o", 3),
                           Field(TArray(TRef(n_inner, f"{q}.Outer.Inner"), 2), "is_", 4), Field(TArray(TRef(n_kind, f"{q}.Outer.Kind"), 2), "ks", 5), Field(U(5), "z", 6)])
         add(f"imp_nested_{q}", [m], ("import",), imports=[Import(nlib, as_name)])
+
+    # an import whose types are used only as array elements (directly and through an alias of an array)
+    u_axis = _e("Axis", 2, [0, 1, 2])
+    u_sample = Message("Sample", [Field(I(11), "v", 1), Field(U(4), "q", 2)])
+    ulib = Proto("units", [u_axis, u_sample])
+    u_win = Alias("Window", TArray(TRef(u_sample, "units.Sample"), 2))
+    add("imp_array_only", [u_win, Message("M", [Field(TArray(TRef(u_axis, "units.Axis"), 3), "axes", 1), Field(TRef(u_win), "w", 2), Field(U(3), "t", 3)])], ("import", "array"), imports=[Import(ulib, None)])
 
     # an import used only for its constants
     clib = Proto("limits", [Const("CAP", "3", 3), Const("WIDE", "2 * 2", 4)])
